@@ -3,6 +3,11 @@ import functools
 import itertools
 
 
+def _members(a, backend):
+    """The members of a string operand are characters."""
+    return backend.str_to_chr_arr(a) if isinstance(a, str) and not isinstance(a, (KGSym, KGChar)) else a
+
+
 def eval_adverb_converge(f, a, op, backend):
     """
         f:~a                                                  [Converge]
@@ -127,8 +132,8 @@ def eval_adverb_each2(f, a, b, backend):
         return bknp.asarray([]) if is_list(a) or is_list(b) else ""
     if is_atom(a) and is_atom(b):
         return f(a,b)
-    r = [f(x,y) for x,y in zip(a,b)]
-    return ''.join(r) if all(isinstance(u, str) and len(u) == 1 for u in r) else backend.kg_asarray(r)
+    r = [f(x,y) for x,y in zip(_members(a, backend),_members(b, backend))]
+    return ''.join(r) if all(isinstance(u, KGChar) for u in r) else backend.kg_asarray(r)
 
 
 def eval_adverb_each_left(f, a, b, backend):
@@ -228,6 +233,7 @@ def eval_adverb_over(f, a, op, backend):
     """
     if is_atom(a):
         return a
+    a = _members(a, backend)
     if len(a) == 1:
         return a[0]
     # Use backend's ufunc reduce when available for better performance
@@ -250,7 +256,7 @@ def eval_adverb_over(f, a, op, backend):
     return functools.reduce(f, a)
 
 
-def eval_adverb_over_neutral(f, a, b):
+def eval_adverb_over_neutral(f, a, b, backend):
     """
 
         a f/b                                             [Over-Neutral]
@@ -280,6 +286,7 @@ def eval_adverb_over_neutral(f, a, b):
         return a
     if is_atom(b):
         return f(a,b)
+    b = _members(b, backend)
     return functools.reduce(f,b[1:],f(a,b[0]))
 
 
@@ -310,6 +317,7 @@ def eval_adverb_scan_over_neutral(f, a, b, backend):
         return a
     if is_atom(b):
         b = [b]
+    b = _members(b, backend)
     b = [f(a,b[0]), *b[1:]]
     r = list(itertools.accumulate(b,f))
     q = backend.kg_asarray(r)
@@ -323,6 +331,7 @@ def eval_adverb_scan_over(f, a, op, backend):
     """
     if is_atom(a):
         return a
+    a = _members(a, backend)
     # Use backend's ufunc accumulate when available for better performance
     np_backend = backend.np
     if isinstance(op, KGOp):
@@ -442,7 +451,7 @@ def get_adverb_fn(klong, s, arity):
     if s == "'":
         return (lambda f,a,b: eval_adverb_each2(f,a,b,backend)) if arity == 2 else lambda f,a,op: eval_adverb_each(f,a,op,backend)
     elif s == '/':
-        return eval_adverb_over_neutral if arity == 2 else lambda f,a,op: eval_adverb_over(f,a,op,backend)
+        return (lambda f,a,b: eval_adverb_over_neutral(f,a,b,backend)) if arity == 2 else lambda f,a,op: eval_adverb_over(f,a,op,backend)
     elif s == '\\':
         return (lambda f,a,b: eval_adverb_scan_over_neutral(f,a,b,backend)) if arity == 2 else lambda f,a,op: eval_adverb_scan_over(f,a,op,backend)
     elif s == '\\~':
